@@ -1580,9 +1580,8 @@ Proof.
   { refine (AH RES_FINALIZE _ (SEt_set _ _ c T0 _ _ _) _ E); discriminate. }
   set (c1 := if t_request_method_number (rs_tx c) =? c_HTP_M_CONNECT then _ else c) in *.
   assert (T1 : SEt RES_BODY_DETERMINE c1).
-  { subst c1. destruct (_ =? c_HTP_M_CONNECT); [|exact T0]. destruct (_ =? 407).
-    - exact (SEt_SEq _ _ _ T0 (SEq_unblock c_HTP_STREAM_DATA c H ltac:(vm_compute; discriminate))).
-    - pose proof (SEq_unblock c_HTP_STREAM_DATA c H ltac:(vm_compute; discriminate)) as Q1. exact (SEt_SEq _ _ _ T0 (SEq_trans _ _ _ Q1 (SEq_data_other true _ (SEq_SE _ _ Q1)))). }
+  { subst c1. destruct (_ =? c_HTP_M_CONNECT); [|exact T0].
+    pose proof (SEq_unblock c_HTP_STREAM_DATA c H ltac:(vm_compute; discriminate)) as Q1. exact (SEt_SEq _ _ _ T0 (SEq_trans _ _ _ Q1 (SEq_data_other true _ (SEq_SE _ _ Q1)))). }
   destruct (_ && _ && _).
   { (* 101 Switching Protocols *)
     pose proof (SEt_set _ RES_FINALIZE c1 T1 ltac:(discriminate) ltac:(discriminate) ltac:(discriminate)) as T2.
